@@ -25,7 +25,7 @@ def floors(tier):
     k = 1 if tier == "quick" else 8
     return {"libraries": 30 * k, "metadata_rpc_entries": 700 * k, "methods_resolved": 700 * k, "fixup_rows": 300 * k, "internal_mode": 8 * k,
             "out_of_order_rows": 20 * k, "keyword_rpcs": 20 * k,
-            "shared_rpc_name_public_in_one_service_internal_in_other": 2 * k}
+            "shared_rpc_name_public_in_one_service_internal_in_other": 2 * k, "services_without_rpcs": 2 * k}
 
 
 def plan(seed, tier):
@@ -35,7 +35,8 @@ def plan(seed, tier):
 
 def build_api(case):
     rng = random.Random(case["seed"])
-    api = apigen.wellformed(rng, "k%d" % (case["seed"] % 100000))
+    idle = {"idle_service": True} if case["seed"] % 5 == 1 and not case["internal"] else None
+    api = apigen.wellformed(rng, "k%d" % (case["seed"] % 100000), extra_feat=idle)
     if case["internal"] and (case["seed"] // 4) % 2 == 0:
         # every other internal-mode case has an RPC name shared by two services
         for _ in range(12):
@@ -74,6 +75,7 @@ def run_case(case):
     model = rdm.Model(req)
     files = {f.name: f.content for f in g.response.file}
     viol, counters = [], {"libraries": 1}
+    counters["services_without_rpcs"] = sum(1 for p_ in req.proto_file if p_.name in req.file_to_generate for s_ in p_.service if not s_.method)
     mech = {"transport": case["transport"], "internal": case["internal"]}
 
     def bump(k, n=1):
